@@ -68,7 +68,7 @@ CasesTwoNotNull ==
      a1 \in BOOLEAN, a2 \in BOOLEAN, a3 \in BOOLEAN, cap \in {Groups7(a, b, c) : a \in {NoGroup, G(t12)}, b \in {NoGroup, G(tAbc)}, c \in {NoGroup, G(t12), G(tAbc)}}}
 
 \* (iii) TIMESTAMP assembled from up to 7 groups
-PartTexts == {<<50, 48, 50, 49>>, <<48>>, <<49>>, <<49, 50>>, <<49, 51>>, <<51, 49>>, <<51, 50>>, <<50, 52>>, <<54, 48>>, <<53, 57>>, <<45, 49>>, <<120>>, <<74, 117, 110>>, <<106, 117, 108, 121>>,
+PartTexts == {<<50, 48, 50, 49>>, <<48>>, <<49>>, <<49, 50>>, <<49, 51>>, <<51, 49>>, <<51, 50>>, <<50, 52>>, <<54, 48>>, <<53, 57>>, <<45, 49>>, <<120>>, <<74, 117, 110>>, <<106, 117, 108, 121>>, <<97, 111, 251, 116>>, <<100, 233, 99>>, <<77, 228, 114, 122>>,      \* aout / dec / Maerz with their non-ASCII letters
               U32WrapText, MaxPlus1Text, <<57, 57, 57>>, <<49, 50, 51, 52, 53, 54, 55>>,
               \* fractions around the limits: 1999 / 2000 ms, 4294968 ms (x 1000 leaves 32 bits), 2147484 ms (x 1000 leaves 31 bits), 1999999 / 2000000 us, nanoseconds
               <<49, 57, 57, 57>>, <<50, 48, 48, 48>>, <<52, 50, 57, 52, 57, 54, 56>>, <<50, 49, 52, 55, 52, 56, 52>>, <<49, 57, 57, 57, 57, 57, 57>>, <<50, 48, 48, 48, 48, 48, 48>>, <<49, 50, 51, 52, 53, 54, 55, 56, 57>>}
@@ -156,10 +156,17 @@ CasesJsonLayout ==
      d \in {JObj(<<<<"a", JNum(IntV(5))>>>>), JObj(<<<<"b", JNum(IntV(3))>>, <<"a", JNum(IntV(4))>>>>), JObj(<<<<"a", JArr(<<JNum(IntV(7)), JNum(IntV(8))>>)>>, <<"b", JNum(IntV(1))>>>>), JArr(<<JNum(IntV(1))>>)}} :
      c.line.doc.k = "arr" => c.line.tag = NoGroup}         \* the harness can only plant the tag text inside a top-level object
 
+\* columns whose paths overlap on one JSON string (the same path twice, an array and one of its elements): each column has the value
+CasesJsonOverlap ==
+  {[cols |-> cs, line |-> JLine(d, NoGroup, 0)] :
+     cs \in {<<JsonC(<<F("a")>>, "text", ""), JsonC(<<F("a")>>, "text", "")>>, <<JsonC(<<F("a")>>, "arr", "text"), JsonC(<<F("a"), I(0)>>, "text", "")>>,
+             <<JsonC(<<F("a"), I(1)>>, "text", ""), JsonC(<<F("a")>>, "arr", "text"), JsonC(<<F("a"), I(1)>>, "text", "")>>},
+     d \in {JObj(<<<<"a", JStr(tAbc)>>>>), JObj(<<<<"a", JArr(<<JStr(tAbc), JStr(t12)>>)>>>>)}}
+
 Cases == (IF "types" \in CaseSets THEN CasesTypes ELSE {}) \cup (IF "rows" \in CaseSets THEN CasesRows \cup CasesTwoNotNull ELSE {})
          \cup (IF "ts" \in CaseSets THEN CasesTs ELSE {}) \cup (IF "arrays" \in CaseSets THEN CasesArrays \cup CasesCross \cup CasesSplitOrder ELSE {})
          \cup (IF "split" \in CaseSets THEN CasesSplit ELSE {})
-         \cup (IF "jsonleaf" \in CaseSets THEN CasesJsonLeaf ELSE {}) \cup (IF "jsonpath" \in CaseSets THEN CasesJsonPath \cup CasesJsonLayout ELSE {})
+         \cup (IF "jsonleaf" \in CaseSets THEN CasesJsonLeaf ELSE {}) \cup (IF "jsonpath" \in CaseSets THEN CasesJsonPath \cup CasesJsonLayout \cup CasesJsonOverlap ELSE {})
 
 VARIABLE cs
 Init == cs \in Cases
